@@ -73,11 +73,31 @@ def run(ck: Check, repo: Repo) -> None:
 
 
 # ---------------------------------------------------------------- roles of locals, derived by def-use (never by spelling)
+def _alts(v: Optional[ast.AST]) -> List[Optional[ast.AST]]:
+    """The values an expression may stand for: `a if c else b` stands for a and for b (whether the choice is spelled as a conditional
+    expression or as an if / else statement with one assignment per branch must not matter: the latter gives two definitions)."""
+    if isinstance(v, ast.IfExp):
+        return _alts(v.body) + _alts(v.orelse)
+    return [v]
+
+
 def _def_values(cfg: CFG, n: Optional[Node], name: str) -> List[Tuple[Optional[ast.AST], Node]]:
-    """(value, definition node) for every definition of local `name` reaching n; value None = not a plain binding."""
+    """(value, definition node) for every definition of local `name` reaching n (one entry per alternative of a conditional expression);
+    value None = not a plain binding."""
     if n is None:
         return []
-    return [(cfg.value_of_def(d, name), d) for d in cfg.defs_reaching(n, name)]
+    return [(v, d) for d in cfg.defs_reaching(n, name) for v in _alts(cfg.value_of_def(d, name))]
+
+
+def _one_choice(cfg: CFG, nodes: List[Node]) -> bool:
+    """The statements are the alternatives of ONE choice: there is at least one, and none of them can run after another one (the single
+    `x = a if c else b`, or the branches of `if c: x = a` / `else: x = b`)."""
+    return bool(nodes) and not any(m is not n and m.id in cfg.reachable_from(n) for n in nodes for m in nodes)
+
+
+def _has_choice(target, test: str, a: str, b: str, var: str) -> bool:
+    """Some local (`var`, a metavariable) is bound to `a` when `test` holds and to `b` otherwise, in either spelling."""
+    return has(target, f'{a} if {test} else {b}') or has(target, f'if {test}:\n    {var} = {a}\nelse:\n    {var} = {b}')
 
 
 def _sources(cfg: CFG, n: Optional[Node], e: ast.AST) -> List[Optional[ast.AST]]:
@@ -135,7 +155,7 @@ def _reinit_after_store(ck: Check, repo: Repo) -> None:
         # the label is set after the optimizer was rebuilt; returns give back the individual
         labels = [n for n in cfg.live_nodes() if n.kind == "stmt" and isinstance(n.ast, ast.Assign) and dotted(n.ast.targets[0]) == "individual.mut"]
         late = [n for n in labels if any(cfg.dominates(r, n) for _, r in full)]
-        ck.ob("C02.1", fn, late[0].ast if late else fn.node, len(late) == 1, f"{name}: the individual reports its mutation after it has been made coherent",
+        ck.ob("C02.1", fn, late[0].ast if late else fn.node, _one_choice(cfg, late), f"{name}: the individual reports its mutation after it has been made coherent",
               construct=f"{name}: individual.mut assignment")
         for n in labels:
             if n not in late:
@@ -253,8 +273,7 @@ def _shared_rebuilt(ck: Check, repo: Repo) -> None:
         defs = cfg.defs_reaching(n, dotted(v)) if isinstance(v, ast.Name) else []
         roots = []
         for d in defs:
-            vv = cfg.value_of_def(d, v.id)
-            roots.append(vv)
+            roots += _alts(cfg.value_of_def(d, v.id))
         from_reinit = [x for x in roots if isinstance(x, ast.Call) and call_name(x) == "self.reinit_from_mutated"]
         through = [x for x in roots if isinstance(x, ast.Call) and call_name(x) in ("self.to_device", "self.compile_modules") and x.args and dotted(x.args[0]) == v.id]
         ck.ob("C02.3", fn, c, len(from_reinit) == 1 and len(from_reinit) + len(through) == len(roots),
@@ -264,7 +283,7 @@ def _shared_rebuilt(ck: Check, repo: Repo) -> None:
             a0 = from_reinit[0].args[0]
             rn = cfg.node_of(from_reinit[0])
             edefs = cfg.defs_reaching(rn, dotted(a0)) if isinstance(a0, ast.Name) else []
-            vals = [cfg.value_of_def(d, a0.id) for d in edefs]
+            vals = [x for d in edefs for x in _alts(cfg.value_of_def(d, a0.id))]
             ok = bool(vals) and grp_v is not None and all(isinstance(x, ast.Call) and call_name(x) == "getattr" and len(x.args) == 2 and _name_in(x.args[0], IND)
                                                         and dotted(x.args[1]) == f"{grp_v}.eval" for x in vals)
             ck.ob("C02.3", fn, from_reinit[0], ok, "the shared network is rebuilt from the (mutated) eval network of the same group of the same individual",
@@ -381,7 +400,7 @@ def _critics_follow(ck: Check, repo: Repo) -> None:
             and cfg.dominates(on, cfg.node_of(stores[0]))
         ck.ob("C02.4", fn, stores[0] if stores else loop, ok, "the mutated network is stored back under its own attribute name")
         lab = [n for n in cfg.live_nodes() if n.kind == "stmt" and isinstance(n.ast, ast.Assign) and dotted(n.ast.targets[0]) == "individual.mut" and res[0] in ast.unparse(n.ast.value)]
-        ck.ob("C02.4", fn, lab[0].ast if lab else fn.node, len(lab) == 1, "the individual reports the applied mutation name", construct="architecture_mutate label")
+        ck.ob("C02.4", fn, lab[0].ast if lab else fn.node, _one_choice(cfg, lab), "the individual reports the applied mutation name", construct="architecture_mutate label")
     pstore = [c for c in calls_in(fn.node) if call_name(c) == "self.to_device_and_set_individual" and c not in [x for l in ast.walk(fn.node) if isinstance(l, ast.For) for x in calls_in(l)]]
     ck.ob("C02.4", fn, pstore[0] if pstore else fn.node, len(pstore) == 1 and len(pstore[0].args) == 3 and dotted(pstore[0].args[0]) == "individual"
           and policy_item(pstore[0].args[1], cfg.node_of(pstore[0]), 0) and policy_item(pstore[0].args[2], cfg.node_of(pstore[0]), 1) and _name_in(pstore[0].args[2], {dotted(pa[0])}),
@@ -393,7 +412,7 @@ def _critics_follow(ck: Check, repo: Repo) -> None:
     g = repo.fn(MUT, "get_offspring_eval_modules")
     src = ast.unparse(g.node)
     ck.ob("C02.4", g, g.node, has(src, 'for $group in $registry.groups:\n    ...') and has(src, 'getattr($individual, $group.eval)'), "offspring are taken from every registered group", construct="offspring source")
-    ck.ob("C02.4", g, g.node, has(src, '[$mod.clone() for $mod in $eval_module] if isinstance($eval_module, list) else $eval_module.clone()'), "mutations act on clones of the eval networks", construct="offspring cloned")
+    ck.ob("C02.4", g, g.node, _has_choice(src, 'isinstance($eval_module, list)', '[$mod.clone() for $mod in $eval_module]', '$eval_module.clone()', '$offspring'), "mutations act on clones of the eval networks", construct="offspring cloned")
     ck.ob("C02.4", g, g.node, has(src, 'if $group.policy:\n    $offspring_policy[$group.eval] = $offspring\nelse:\n    $offspring_modules[$group.eval] = $offspring'),
           "the policy group is separated from the other eval groups, each keyed by its attribute name", construct="policy split")
     # _apply_arch_mutation: calls getattr(net, method)(**args) and returns the name really applied
@@ -581,4 +600,23 @@ VARIANTS = [
     ("policy-store-sample", _MF, "self.to_device_and_set_individual(individual, policy_name, policy_offspring)", "self.to_device_and_set_individual(individual, policy_name, sample_policy)", "fire", "C02.4"),
     ("policy-call-sample-net", _MF, "            policy_offspring, mut_method\n", "            sample_policy, mut_method\n", "fire", "C02.4"),
     ("store-old-wrapper-name", _MF, "setattr(individual, config.name, offspring_opt)", "setattr(individual, opt.lr_name, offspring_opt)", "fire", "C02.2"),
+    # a choice between two values spelled as an if / else statement instead of a conditional expression is the same program
+    ("act-label-if-statement-ok", _MF, "        individual.mut = \"act\" if not no_activation else \"None\"\n",
+     "        if no_activation:\n            individual.mut = \"None\"\n        else:\n            individual.mut = \"act\"\n", "silent", None),
+    ("act-label-set-before-reinit", _MF, "        self.reinit_opt(individual)  # Reinitialise optimizer\n        individual.mut = \"act\" if not no_activation else \"None\"\n",
+     "        individual.mut = \"act\"\n        self.reinit_opt(individual)  # Reinitialise optimizer\n        if no_activation:\n            individual.mut = \"None\"\n", "fire", "C02.1"),
+    ("arch-label-if-statement-ok", _MF, "        individual.mut = (\n            applied_mutations[0]\n            if isinstance(applied_mutations, list)\n            else applied_mutations\n        )\n",
+     "        if isinstance(applied_mutations, list):\n            individual.mut = applied_mutations[0]\n        else:\n            individual.mut = applied_mutations\n", "silent", None),
+    ("arch-label-if-statement-sampled-name", _MF, "        individual.mut = (\n            applied_mutations[0]\n            if isinstance(applied_mutations, list)\n            else applied_mutations\n        )\n",
+     "        if isinstance(mut_method, list):\n            individual.mut = mut_method[0]\n        else:\n            individual.mut = mut_method\n", "fire", "C02.4"),
+    ("arch-label-twice", _MF, "        individual.mut = (\n            applied_mutations[0]\n            if isinstance(applied_mutations, list)\n            else applied_mutations\n        )\n",
+     "        individual.mut = applied_mutations\n        individual.mut = str(applied_mutations)\n", "fire", "C02"),
+    ("offspring-clone-if-statement-ok", _MF, "        offspring = (\n            [mod.clone() for mod in eval_module]\n            if isinstance(eval_module, list)\n            else eval_module.clone()\n        )\n",
+     "        if isinstance(eval_module, list):\n            offspring = [mod.clone() for mod in eval_module]\n        else:\n            offspring = eval_module.clone()\n", "silent", None),
+    ("offspring-if-statement-single-not-cloned", _MF, "        offspring = (\n            [mod.clone() for mod in eval_module]\n            if isinstance(eval_module, list)\n            else eval_module.clone()\n        )\n",
+     "        if isinstance(eval_module, list):\n            offspring = [mod.clone() for mod in eval_module]\n        else:\n            offspring = eval_module\n", "fire", "C02.4"),
+    ("sampled-method-if-statement-ok", _MF, "        mut_method = get_architecture_mut_method(\n            policy_offspring, self.new_layer_prob, self.rng\n        )\n",
+     "        if self.new_layer_prob < 1:\n            mut_method = get_architecture_mut_method(policy_offspring, self.new_layer_prob, self.rng)\n        else:\n            mut_method = get_architecture_mut_method(policy_offspring, 1.0, self.rng)\n", "silent", None),
+    ("sampled-method-conditional-expression-ok", _MF, "        mut_method = get_architecture_mut_method(\n            policy_offspring, self.new_layer_prob, self.rng\n        )\n",
+     "        mut_method = get_architecture_mut_method(policy_offspring, self.new_layer_prob, self.rng) if self.new_layer_prob < 1 else get_architecture_mut_method(policy_offspring, 1.0, self.rng)\n", "silent", None),
 ]
